@@ -66,6 +66,9 @@ def f16_ref(W, b, x, a, fkind):
         return vec
     if fkind == "tuple":
         return (sc, vec * 0.5)
+    if fkind == "tuple_bool":
+        # a component that is not floating point (an indicator): its average is a frequency
+        return (sc, x.sum() > 0.1)
     if fkind == "const":
         return torch.full((2,), 1.75, dtype=x.dtype) + 0.0 * a
     raise AssertionError(fkind)
@@ -154,8 +157,14 @@ class Maths(object):
         SIM.enter("logp16", (self, x))
         return logp16_ref(self._W(), self._b(), x, c)
 
+    step_inplace = False
+
     def g16(self, x, c, z):
         SIM.enter("g16", (self, x))
+        if self.step_inplace:
+            # a step that advances its argument in place and hands the same tensor back
+            x.copy_(g16_ref(x))
+            return x
         return g16_ref(x)
 
     inner_kind = "quad"
